@@ -359,3 +359,10 @@ func init() {
 		r.add("DBGM", "debug", "x", "x", nil, nil, "")
 	})
 }
+
+func init() {
+	register("DBGRX", "dump regexes", func(c *Ctx, r *Report) {
+		os.Stdout.Write(c.W.dumpRegexes())
+		r.add("DBGRX", "debug", "x", "x", nil, nil, "")
+	})
+}
